@@ -370,7 +370,8 @@ Proof.
     destruct (n_op nd).
     1,2,4: destruct (remove_prev (sn_reg (read_reg st)) _ prevv) eqn:Rp; injection H as <- <-; split; auto;
       apply node_own_set_pc, node_own_set_content; eapply remove_prev_Own; eauto.
-    destruct (aget (sn_reg (read_reg st)) _); injection H as <- <-; split; auto.
+    destruct (aget (sn_reg (read_reg st)) _) as [e0|]; [destruct (negb (is_deleted (rv_ver (e_cur e0))))|];
+      injection H as <- <-; split; auto.
     apply node_own_set_pc, node_own_set_content, Own_adel, HR.
   - (* PFinWrite *)
     destruct (write_reg st (n_reg nd)) as [[st1 sn1]|] eqn:Wr.
